@@ -1172,7 +1172,7 @@ def _accumulate_group(output_fields, group_list):
             values = []
             for doc in group_list:
                 try:
-                    values.append(_parse_expression(key, doc))
+                    values.append(_parse_expression(key, doc, ignore_missing_keys=True))
                 except KeyError:
                     if operator in ('$first', '$last'):
                         # The value of the first (last) document, null if it is missing there.
